@@ -13,7 +13,11 @@ LEVEL_TEXT = ("Theorems (Lean 4) about an executable, statement-by-statement mod
               "property was false - findings F16-F21, F32-F34 found by this check - are fixed in /repo and kept as regressions "
               "in Lean and in corpus/C14). The model is tied to the code by differential testing of random edit histories "
               "after every call.")
-LEVEL_NOTE = ("proved for all histories; rustworkx (index allocation, descendants, multigraph=False, check_cycle) is modelled, not "
+LEVEL_NOTE = ("Props/C14Solver carries the invariant to where it is used: for EVERY reachable system the solver's view is a well-formed tree in the sense the table "
+              "theorems need (`reachable_structure`: parents/children converse, roots = Sources, one PMux, distinct names and rails, a valid topological order exists), "
+              "hence in any exact steady state of any reachable system the energy balance, total / subsystem efficiency <= 100 and all-zero rows below a dead element hold "
+              "(`reachable_table_balance_partial`, `reachable_total_eff_le_100_partial`, `reachable_dead_rows`; what stays assumed is about component PARAMETERS only). "
+              "proved for all histories; rustworkx (index allocation, descendants, multigraph=False, check_cycle) is modelled, not "
               "verified; the tie between model and system.py is testing (correspondence after every call), not proof.")
 MODULE = "SysLoss.Props.C14"
 THEOREMS = [
@@ -22,7 +26,15 @@ THEOREMS = [
     "SysLoss.C14.regression_F16", "SysLoss.C14.regression_F17", "SysLoss.C14.regression_F18",
     "SysLoss.C14.regression_F19", "SysLoss.C14.regression_F19_dup", "SysLoss.C14.regression_F20_F21",
     "SysLoss.C14.regression_F32", "SysLoss.C14.regression_F33_F34",
-]
+] + ["SysLoss.C14S." + t for t in (
+    # Props/C14Solver: what well-formedness buys - the solver's view of EVERY reachable system satisfies the structural premises
+    # of the table theorems of C02 / C04 / C07 (no Legal / WF hypothesis left)
+    "parentsOf_length", "parents_perm_preds", "mkNode_parents_perm", "toSSys_treeWF", "toSSys_namesDistinct", "toSSys_srcNamesDistinct",
+    "toSSys_oneMux", "toSSys_muxInputsPlain", "toSSys_childsOK", "childsOK_of_treeWF", "compsOK_of_payloads", "payloads_of_compsOK",
+    "phaseValOK_of_confNonneg", "reachable_treeWF", "reachable_structure", "reachable_structure_exists", "reachable_table_balance_partial",
+    "reachable_table_balance_of_payloads_partial", "reachable_total_loss_le_power_partial", "reachable_total_eff_le_100_partial",
+    "reachable_subsystem_loss_le_power_partial", "reachable_subsystem_eff_le_100_partial", "reachable_dead_rows", "reachable_dead_rows_of_sweeps")]
+MODULES = ["SysLoss.Props.C14", "SysLoss.Props.C14Solver"]
 RULE = ("random edit histories of 5-60 calls (add_source/add_comp/change_comp/del_comp, a few phase settings) over 12 names and "
         "6 rail names drawn from the structure the previous calls left (collisions, re-use after deletion, unchanged-name "
         "replacement, parents by rail, renames/deletions of PMux inputs, both del_childs, ~35% crafted rejections); after EVERY "
